@@ -34,7 +34,7 @@ ALL_EDITS = ["AddMsg", "AddEnum", "AddVal", "AddFld", "AddMap", "AddOneof", "Add
              "AddOptUse", "AddOptExt"]
 SMALL_EDITS = ["AddVal", "AddImport", "AddRange", "AddRName", "AddDflt", "AddJson", "AddGroup", "AddOptUse"]
 ALL_MUTS = ["SetNum", "SetLabel", "Retarget", "SetSyntax", "SetName", "SetPkg", "SetValNum", "DropLeaf",
-            "SetMapKey", "SetDflt", "DropAlias", "SetImpKind"]
+            "SetMapKey", "SetDflt", "DropAlias", "SetImpKind", "AddEnumRange"]
 
 
 ALL_KINDS = ["message", "enum", "value", "oneof", "field", "ext", "service", "method"]
@@ -77,7 +77,8 @@ ALL_RULES = ["V-import-exists", "V-import-dup", "V-import-cycle", "V-dup-symbol"
              "V-p2-label-missing", "V-p3-required", "V-ed-optional", "V-ed-required", "V-oneof-label", "V-map-label",
              "V-map-in-oneof", "V-ext-required", "V-p3-group", "V-ed-group", "V-num-positive", "V-num-max", "V-num-impl-reserved", "V-num-dup",
              "V-num-reserved", "V-name-reserved", "V-num-in-extrange", "V-range-overlap", "V-p3-extrange", "V-rname-dup",
-             "V-enum-empty", "V-enum-first-zero", "V-enum-dup-num", "V-oneof-empty", "V-map-key", "V-p3-default",
+             "V-enum-empty", "V-enum-first-zero", "V-enum-dup-num",
+             "V-enum-num-reserved", "V-enum-name-reserved", "V-enum-range-overlap", "V-oneof-empty", "V-map-key", "V-p3-default",
              "V-default-repeated", "V-default-type", "V-default-message", "V-default-enum-value", "V-default-enum-ident",
              "V-json-conflict",
              "V-ref-resolve", "V-ref-kind", "V-ext-range", "V-ext-dup", "V-p3-ext", "V-closed-enum-implicit",
